@@ -5,6 +5,10 @@ V = os.path.dirname(os.path.dirname(os.path.abspath(__file__)))
 props = [json.loads(l) for l in open(os.path.join(V, "properties.jsonl"))]
 CHECKS = {}
 exec(open(os.path.join(V, "bin", "manifest_table.py")).read())
+for _pid in list(globals().get("PENDING", [])):
+    if _pid in CHECKS:
+        NOT_YET[_pid] = "check built (spec/Lifecycle*.tla, harness/props/%s.py) but not yet registered: still being stabilised (run time)" % _pid.lower()
+        CHECKS.pop(_pid)
 hooks_commits = subprocess.run(["git", "-C", "/repo", "log", "--format=%H %s"], capture_output=True, text=True).stdout.splitlines()
 hook_shas = [l.split()[0] for l in hooks_commits if "verif hook" in l]
 man = {
